@@ -7,6 +7,8 @@ package main
 
 import (
 	"fmt"
+	"runtime"
+	"time"
 
 	ristretto "github.com/dgraph-io/ristretto/v2"
 	"verif/harness/lab"
@@ -96,6 +98,9 @@ func runC18(c *Ctx) {
 	sizes := []int64{2, 3, 4, 5, 7, 8, 9, 15, 16, 17, 31, 32, 33, 63, 64, 65, 100, 1000, 1024, 4097}
 	if c.Thorough() {
 		sizes = append(sizes, 6, 10, 12, 127, 128, 129, 255, 256, 257, 5000, 65536, 100000)
+	}
+	if c.Part == c.NParts-1 {
+		c18Cache(c)
 	}
 	reps := c.N(3, 16)
 	stream := uint64(0)
@@ -436,5 +441,69 @@ func c18Tiny(c *Ctx, rng *lab.RNG, nc int64, stream uint64) {
 	})
 	if p != nil {
 		fail("C18/panic/"+p.Short(), p.Msg+"\n"+p.Stack)
+	}
+}
+
+// c18Cache: accesses recorded through the public API (Get -> batch -> policy goroutine) must show up in the
+// estimate, on a fresh cache and after Clear. BufferItems = 1 makes every Get its own batch; a phase in which a
+// batch was dropped (GetsDropped moved) is not judged.
+func c18Cache(c *Ctx) {
+	r := c.R
+	for rep := 0; rep < c.N(6, 40); rep++ {
+		for _, n := range []int{1, 3, 8, 20} {
+			r.Eval(1)
+			name := fmt.Sprintf("c18-cache-n%d-rep%d", n, rep)
+			c.J.Case(name)
+			l, err := lab.NewLab(lab.CacheCfg{NumCounters: 100000, MaxCost: 1000, BufferItems: 1, Metrics: true, IgnoreInternalCost: true, KeyKind: "uint64", NKeys: 8})
+			if err != nil {
+				r.Inconc(1)
+				continue
+			}
+			cl := l.NewClient()
+			for phase := 0; phase < 3; phase++ {
+				if phase > 0 {
+					cl.Set(1, cl.NextVal(1), 1, 0)
+					cl.Wait()
+					cl.Clear()
+				}
+				k := 2 + phase
+				h := l.Hashes[k][0]
+				m := l.C.Metrics()
+				dropped0 := m.GetsDropped()
+				for i := 0; i < n; i++ {
+					cl.Get(k)
+					// let the policy goroutine take the batch: its channel holds only 3
+					for w := 0; w < 2000 && l.C.Snapshot().GetChLen > 0; w++ {
+						runtime.Gosched()
+					}
+				}
+				if m.GetsDropped() != dropped0 {
+					r.Obs("cache_phases_with_dropped_batches", 1)
+					continue
+				}
+				want := int64(min(n, 15))
+				ok := false
+				deadline := time.Now().Add(5 * time.Second)
+				var est int64
+				for time.Now().Before(deadline) {
+					if est = l.C.Estimate(h); est >= want {
+						ok = true
+						break
+					}
+					time.Sleep(200 * time.Microsecond)
+				}
+				if !ok {
+					r.Violate("C18/cache-undercount", fmt.Sprintf("[%s] %d accesses of a key were recorded through Get (none dropped) after %d Clear(s), but its estimate is %d (< %d) 5 s later", name, n, phase, est, want), name)
+					break
+				}
+				if est > 16 {
+					r.Violate("C18/estimate-above-16", fmt.Sprintf("[%s] estimate %d", name, est), name)
+				}
+				r.Obs("cache_phases_checked", 1)
+				r.DistinctKey("cache/n%d/clears%d", n, phase)
+			}
+			l.C.Close()
+			l.Forget()
+		}
 	}
 }
